@@ -301,12 +301,14 @@ class Engine:
 # second opinion on proved obligations
 
 CROSS_BIN = '/usr/bin/z3'  # z3 4.8.12 (the Python API in use is z3 5.1)
+CROSS_BIN2 = '/usr/bin/cvc5'  # cvc5 1.0.3
 _CROSS_LEFT = [None]
 
 
 def _cross_check(solver):
   """Re-decides the first VERIF_CROSS_N proved obligations of this process
-  with an independent solver build (SMT-LIB2 dump, 10 s).  Returns the
+  with two independent solvers (z3 4.8.12 and cvc5 1.0.3 binaries, SMT-LIB2
+  dump, 10 s each).  Returns the
   second verdict ('unsat', 'sat', 'unknown') or None when not sampled."""
   import os  # pylint: disable=g-import-not-at-top
   if _CROSS_LEFT[0] is None:
@@ -328,24 +330,38 @@ def _cross_check(solver):
     with tempfile.NamedTemporaryFile('w', suffix='.smt2', delete=False) as f:
       f.write(text)
       name = f.name
+    outs = []
     try:
-      out = subprocess.run([CROSS_BIN, '-T:10', '-smt2', name],
-                           capture_output=True, text=True, timeout=25,
-                           check=False).stdout
+      for cmd in ([CROSS_BIN, '-T:10', '-smt2', name],
+                  [CROSS_BIN2, '--tlimit=10000', name]):
+        if not os.path.exists(cmd[0]):
+          continue
+        try:
+          outs.append(subprocess.run(cmd, capture_output=True, text=True,
+                                     timeout=25, check=False).stdout)
+        except subprocess.TimeoutExpired:
+          outs.append('')
     finally:
       os.unlink(name)
   except Exception:  # pylint: disable=broad-except
     return None
   STATS.cross_checked += 1
-  lines = [l.strip() for l in out.splitlines() if l.strip()]
-  if any(l.startswith('(error') for l in lines):
-    return 'unknown'
-  verdict = lines[0] if lines else 'unknown'
-  if verdict == 'unsat':
-    STATS.cross_agree += 1
-  elif verdict == 'sat':
+  verdicts = []
+  for out in outs:
+    lines = [l.strip() for l in out.splitlines() if l.strip()]
+    if any(l.startswith('(error') for l in lines):
+      verdicts.append('unknown')
+      continue
+    # (cvc5 prints warnings about the missing set-logic on stderr only)
+    v = [l for l in lines if l in ('sat', 'unsat', 'unknown')]
+    verdicts.append(v[0] if v else 'unknown')
+  if 'sat' in verdicts:
     STATS.cross_disagree += 1
-  return verdict if verdict in ('sat', 'unsat') else 'unknown'
+    return 'sat'
+  if 'unsat' in verdicts:
+    STATS.cross_agree += 1
+    return 'unsat'
+  return 'unknown'
 
 
 # ---------------------------------------------------------------------------
